@@ -1,6 +1,16 @@
 #!/bin/sh
-# builds the whole Lean development (models, lemmas, property theorems) and every model driver, offline
-set -e
-cd "$(dirname "$0")/../lean"
+# builds the whole Lean development (models, lemmas, property theorems) and every model driver, offline.
+# Generated/*.lean are first regenerated from /repo's current sources (each check does the same for
+# its own property).  A module that fails to build is reported by the check that needs it, not here:
+# this script only fails when a model driver cannot be built.
+cd "$(dirname "$0")/../lean" || exit 1
+python3 ../tools/regen.py
 exes=$(grep -A1 '^\[\[lean_exe\]\]' lakefile.toml | sed -n 's/^name = "\(.*\)"/\1/p')
-lake build CelmaVerif $exes
+lake build CelmaVerif $exes || echo "setup: some modules did not build (see above); continuing"
+rc=0
+for e in $exes; do
+  if [ ! -x ".lake/build/bin/$e" ]; then
+    lake build "$e" || { echo "setup: driver $e failed to build"; rc=1; }
+  fi
+done
+exit $rc
